@@ -274,7 +274,7 @@ func exec(s *stats, cl *cluster, views map[uint64]*storeView, k *kase, suffix st
 }
 
 func randomPhase(r *ev.Run, workers int, total *stats, mu *sync.Mutex) {
-	worlds := r.Pick(5000, 15000)
+	worlds := r.Pick(4000, 10000)
 	var wg sync.WaitGroup
 	var fatal sync.Once
 	for wk := 0; wk < workers; wk++ {
